@@ -555,6 +555,13 @@ func (dm *DagModifier) appendData(nd ipld.Node, spl chunker.Splitter) (ipld.Node
 
 	switch nd := nd.(type) {
 	case *mdag.ProtoNode:
+		// A leaf that holds file data itself must not get links: readers and
+		// modifyDag/dagTruncate ignore the data of a node that has children.
+		nd, err := dm.leafDataToChild(nd)
+		if err != nil {
+			return nil, err
+		}
+
 		// ProtoNode can be directly passed to trickle.Append
 		dbp := &help.DagBuilderParams{
 			Dagserv:    dagserv,
@@ -609,6 +616,42 @@ func (dm *DagModifier) appendData(nd ipld.Node, spl chunker.Splitter) (ipld.Node
 	default:
 		return nil, ErrNotUnixfs
 	}
+}
+
+// leafDataToChild moves the file data held by a ProtoNode without links into
+// a leaf of its own, so that the node can take further children. Type, mode and
+// mtime stay on the node. Nodes with links or without data are returned as is.
+func (dm *DagModifier) leafDataToChild(nd *mdag.ProtoNode) (*mdag.ProtoNode, error) {
+	if len(nd.Links()) > 0 {
+		return nd, nil
+	}
+	fsn, err := ft.FSNodeFromBytes(nd.Data())
+	if err != nil {
+		return nil, err
+	}
+	data := fsn.Data()
+	if len(data) == 0 {
+		return nd, nil
+	}
+
+	leaf := mdag.NodeWithData(ft.FilePBData(data, uint64(len(data))))
+	leaf.SetCidBuilder(nd.CidBuilder())
+	dm.ensureSafeProtoNodeHash(leaf)
+	if err := dm.dagserv.Add(dm.ctx, leaf); err != nil {
+		return nil, err
+	}
+
+	fsn.SetData(nil)
+	fsn.AddBlockSize(uint64(len(data)))
+	b, err := fsn.GetBytes()
+	if err != nil {
+		return nil, err
+	}
+	nd.SetData(b)
+	if err := nd.AddNodeLink("", leaf); err != nil {
+		return nil, err
+	}
+	return nd, nil
 }
 
 // Read data from this dag starting at the current offset
